@@ -1,19 +1,39 @@
-(* Properties/C02.v — rollback (label: partial).  Proved here: whatever a build
-   does — commit or rollback, any program, any fault — regular files outside the
-   managed set keep their node and none appears (so a rolled-back build cannot
-   have damaged or left behind anything foreign), and a refused build changes
-   nothing.  NOT yet a theorem: that the managed files (previous outputs, cache
-   file, overwritten targets) are back with identical bytes and mtime after a
-   rollback, and that no directory made by the failed build remains; these are
-   decided on the implementation by T2 (model) and T3 (snapshot oracle, twin
+(* Properties/C02.v — rollback (label: partial).
+   MAIN THEOREM (C02_rollback_restores_every_regular_file): if a build of the mechanism
+   model raises — any program, any raise point, any previous cache — every regular file
+   of the pre-state is there afterwards with the same node (bytes, modification time,
+   inode): previous outputs, the cache file, overwritten foreign files included.  Side
+   conditions (Proofs/RollbackLaws.v): no injected fault; a well-formed tree; creatable
+   names (no over-long component) for the files of the pre-state and the directories the
+   old cache recorded; (A) neither a regular file of the pre-state nor a target is a
+   proper ancestor of a target, of the cache file or of a recorded target — i.e. the
+   file<->directory swaps are NOT covered by the theorem (they are decided on the
+   implementation by T2/T3).
+   Also proved: whatever a build does — commit or rollback, any fault — regular files
+   outside the managed set keep their node and none appears, and a refused build changes
+   nothing.  NOT a theorem: that no directory made by the failed build remains, and that
+   the next build behaves as if the failed one had never run (T3: snapshot oracle, twin
    histories). *)
 From Coq Require Import List String Bool.
 From FB.Base Require Import PyVal Fs.
 From FB.Gen Require Import JsonUtilGen.
 From FB.Spec Require Import Prog.
 From FB.Model Require Import Types Monad Builder Persist Build Run Frame.
-From FB.Proofs Require Import FrameLaws CleanLaws.
+From FB.Proofs Require Import FrameLaws CleanLaws RollbackLaws.
 Import ListNotations.
+
+Theorem C02_rollback_restores_every_regular_file : forall cf nm vers svers root w w' e (P : path -> Prop),
+  w_faults w = [] ->
+  sanitize vers = Some svers ->
+  AllTargets P root ->
+  fs_wf (w_fs w) ->
+  (forall p f, lookup (w_fs w) p = Some (NFile f) -> path_ok p = true) ->
+  (forall a t, (P t \/ t = cf \/ In t (cache_targets (old_cache_of (w_fs w) cf nm svers))) ->
+     below a t = true -> (forall f, lookup (w_fs w) a <> Some (NFile f)) /\ ~ P a) ->
+  (forall d, In d (c_dirs (old_cache_of (w_fs w) cf nm svers)) -> path_ok d = true) ->
+  run_build cf nm vers root w = (w', Done (inr e)) ->
+  forall p f, lookup (w_fs w) p = Some (NFile f) -> lookup (w_fs w') p = Some (NFile f).
+Proof. exact rollback_restores_files. Qed.
 
 Theorem C02_partial_unmanaged_files_survive_failure : forall cf nm vers svers root w w' e (P : path -> Prop),
   sanitize vers = Some svers -> AllTargets P root ->
